@@ -294,6 +294,10 @@ struct State {
     noise_state: u64,
     /// last meta.json bytes (visible)
     meta_visible: Option<Arc<Vec<u8>>>,
+    /// meta.json as of the last sync_directory (what a crash would bring back at worst)
+    meta_durable: Option<Arc<Vec<u8>>>,
+    /// how long a blocking lock acquisition waits before giving up
+    lock_timeout: Duration,
     t1_checks: u64,
     t2_checks: u64,
     t3_checks: u64,
@@ -387,6 +391,8 @@ impl MonDir {
                     writer_lock_refusals: 0,
                     noise_state,
                     meta_visible: None,
+                    meta_durable: None,
+                    lock_timeout: Duration::from_secs(10),
                     t1_checks: 0,
                     t2_checks: 0,
                     t3_checks: 0,
@@ -427,10 +433,15 @@ impl MonDir {
                 st.ever_existed.insert(p.clone());
                 if p == "meta.json" {
                     st.meta_visible = Some(data.clone());
+                    st.meta_durable = Some(data.clone());
                 }
             }
         }
         d
+    }
+
+    pub fn set_lock_timeout(&self, d: Duration) {
+        self.lock().lock_timeout = d;
     }
 
     fn lock(&self) -> MutexGuard<'_, State> {
@@ -794,7 +805,8 @@ impl MonDir {
             None => {
                 if st.deleted.contains(&p) && p != ".managed.json" && !p.ends_with(".lock") {
                     // a path that existed and was deleted is being opened: read-after-GC
-                    st.read_after_gc.push(p.clone());
+                    let who = role_of(&cur_thread_name());
+                    st.read_after_gc.push(format!("{who}:{}", file_kind(&p)));
                 }
                 Self::push_event(&mut st, kind, &p, 0, false, None, 0, "not-found");
                 Err(OpenReadError::FileDoesNotExist(path.to_path_buf()))
@@ -1037,6 +1049,20 @@ impl Directory for MonDir {
                             }
                         }
                     }
+                    if let Some(meta) = st.meta_durable.clone() {
+                        if let Ok(files) = meta_referenced_files(&meta) {
+                            if files.iter().any(|(f, _)| f == &p) {
+                                Self::viol(
+                                    &mut st,
+                                    &format!(
+                                        "T3:delete-of-file-referenced-by-durable-meta:{}",
+                                        file_kind(&p)
+                                    ),
+                                    json!({"file": p, "durable_meta_opstamp": meta_opstamp(&meta)}),
+                                );
+                            }
+                        }
+                    }
                 }
                 st.deleted.insert(p.clone());
                 st.unsynced_entries.remove(&p);
@@ -1161,6 +1187,7 @@ impl Directory for MonDir {
         }
         let mut st = self.lock();
         st.unsynced_entries.clear();
+        st.meta_durable = st.meta_visible.clone();
         Self::push_event(&mut st, OpKind::SyncDir, "", 0, true, None, 0, "");
         Ok(())
     }
@@ -1173,8 +1200,8 @@ impl Directory for MonDir {
             return Err(LockError::wrap_io_error(e));
         }
         let tname = cur_thread_name();
-        let deadline = Instant::now() + Duration::from_secs(10);
         let mut st = self.lock();
+        let deadline = Instant::now() + st.lock_timeout;
         loop {
             if !st.locks.contains_key(&p) {
                 st.locks.insert(p.clone(), tname.clone());
